@@ -39,7 +39,8 @@ Visit(T, i, p, idx, b) ==
       post == IF T.postNil THEN <<>> ELSE << <<2, i, p, idx, b>> >>
       descend == T.preNil \/ i \notin T.prune
       nb == IF T.blk[i] THEN i ELSE b
-  IN pre \o (IF descend THEN VisitKids(T, Kids(T.par, i), 1, i, nb) \o post ELSE <<>>)
+      kids == IF i \in T.hide THEN <<>> ELSE Kids(T.par, i)      \* a user-supplied ChildCount that reports 0 hides the children
+  IN pre \o (IF descend THEN VisitKids(T, kids, 1, i, nb) \o post ELSE <<>>)
 VisitKids(T, kids, k, p, nb) ==
   IF k > Len(kids) THEN <<>> ELSE Visit(T, kids[k], p, k - 1, nb) \o VisitKids(T, kids, k + 1, p, nb)
 Ref(T) ==
@@ -55,7 +56,7 @@ tvars == <<tid, verdict>>
 Policies(n) == [prune : SUBSET (1..n), abort : 0..n, preNil : BOOLEAN, postNil : BOOLEAN]
 Init == /\ \E n \in 1..MaxNodes : \E par \in Trees(n) : \E vr \in BOOLEAN : \E b \in Typings(par, vr) : \E pol \in Policies(n) :
              T = [par |-> par, blk |-> b, vroot |-> vr, prune |-> pol.prune, abort |-> pol.abort,
-                  preNil |-> pol.preNil, postNil |-> pol.postNil]
+                  preNil |-> pol.preNil, postNil |-> pol.postNil, hide |-> {}]
         /\ stack = << [node |-> 1, parent |-> 0, block |-> 0, index |-> -1, post |-> FALSE] >>
         /\ calls = <<>> /\ done = FALSE /\ tid = 0 /\ verdict = "ok"
 
@@ -73,7 +74,7 @@ PopPre == /\ ~done /\ stack # <<>> /\ ~Cur.post
           /\ calls' = IF T.preNil THEN calls ELSE Append(calls, Call(1, Cur))
           /\ IF ~T.preNil /\ Cur.node \in T.prune
              THEN stack' = Rest /\ done' = (Rest = <<>>)     \* pruned: no children, no Post
-             ELSE LET kids == Kids(T.par, Cur.node)
+             ELSE LET kids == IF Cur.node \in T.hide THEN <<>> ELSE Kids(T.par, Cur.node)
                       nb == IF T.blk[Cur.node] THEN Cur.node ELSE Cur.block
                       n == Len(kids)
                       pushed == [k \in 1..n |-> [node |-> kids[n - k + 1], parent |-> Cur.node, block |-> nb,
@@ -96,12 +97,12 @@ Emit == done => PrintT(ToJson([par |-> T.par, blk |-> T.blk, vroot |-> T.vroot, 
                                preNil |-> T.preNil, postNil |-> T.postNil, calls |-> calls]))
 
 \* ------------------------------------------------------------------ trace validation (direction B)
-\* record: par, blk, prune, abort, preNil, postNil, evs = <<kind, node, parent, index, parentBlock, consistent>>
+\* record: par, blk, prune, abort, preNil, postNil, hide (nodes for which a custom ChildCount - with the default Child - reports 0), evs = <<kind, node, parent, index, parentBlock, consistent>>
 Traces == ndJsonDeserialize(File)
 TraceVerdict(t) ==
   LET TT == [par |-> t.par, blk |-> [i \in 1..Len(t.blk) |-> t.blk[i] = 1], vroot |-> FALSE,
              prune |-> {t.prune[i] : i \in 1..Len(t.prune)}, abort |-> t.abort,
-             preNil |-> t.preNil = 1, postNil |-> t.postNil = 1]
+             preNil |-> t.preNil = 1, postNil |-> t.postNil = 1, hide |-> {t.hide[i] : i \in 1..Len(t.hide)}]
       want == Ref(TT)
       got == [k \in 1..Len(t.evs) |-> SubSeq(t.evs[k], 1, 5)]
   IN IF Len(got) # Len(want) THEN "number-of-callbacks"
